@@ -260,3 +260,20 @@ class MethodRef:
 
     def __repr__(self):
         return f"MethodRef({self.obj!r}.{self.attr})"
+
+
+class Absentable:
+    """attribute that may be absent: getattr(obj, name, default) yields default when `absent`"""
+
+    def __init__(self, absent, val):
+        self.absent = absent
+        self.val = val
+
+
+class SeqV:
+    """immutable sequence of symbolic length whose i-th element is elem(i) (built from uninterpreted functions)"""
+
+    def __init__(self, length, elem, name="seq"):
+        self.length = length
+        self.elem = elem
+        self.name = name
